@@ -10,7 +10,10 @@ from param.parameterized import edit_constant  # noqa: E402
 ORDER = ["A", "B", "C"]
 
 
-def make_param(kind):
+def make_param(kind, nested=False):
+    if nested and kind in ("mut_inst", "mut_shared"):
+        # the mutable value is a dictionary holding a list: mutation happens one level down
+        return param.Dict(default={"k": []}, instantiate=(kind == "mut_inst"), **({"allow_refs": True} if kind == "mut_inst" else {}))
     if kind == "plain":
         return param.Integer(0, bounds=(0, 5), allow_None=True)
     if kind == "mut_inst":
@@ -35,10 +38,13 @@ def make_param(kind):
 class System:
     def __init__(self, beh, opts):
         self.kinds = opts["kinds"]
+        import json
+        import zlib
+        self.nested = zlib.crc32(json.dumps(beh, sort_keys=True).encode()) % 2 == 1
         self.classes = {}
         bases = opts.get("bases") or {c: ([opts["classes"][i - 1]] if i else []) for i, c in enumerate(opts["classes"])}
         for c in sorted(bases):        # names are in definition order
-            ns = {n: make_param(k) for n, k in self.kinds.items()} if not bases[c] else {}
+            ns = {n: make_param(k, self.nested) for n, k in self.kinds.items()} if not bases[c] else {}
             if not bases[c]:
                 ns["__len__"] = lambda self: 0       # container-like and currently empty: instances are falsy
             self.classes[c] = type(c, tuple(self.classes[b] for b in bases[c]) or (param.Parameterized,), ns)
@@ -74,7 +80,7 @@ class System:
                 self.cbfail.append("watcher of %s.%s received new=%r while the governing Parameter's default is %r" % (
                     event.cls.__name__, event.name, event.new, static.default))
 
-    def val(self, v):
+    def val(self, v, kind=None):
         if v["t"] == "skipref":
             def skip(v):
                 raise param.Skip
@@ -86,7 +92,7 @@ class System:
         if v["t"] == "int":
             return v["v"]
         if v["t"] == "newcell":
-            return []
+            return {"k": []} if self.nested and kind in ("mut_inst", "mut_shared") else []
         raise ValueError(v)
 
     def init(self, st):
@@ -109,7 +115,7 @@ class System:
             elif n == "classset":
                 cls = self.classes[a["c"]]
                 setattr(cls, a["n"], float(getattr(cls, a["n"])) if a["v"]["t"] == "badeq" else
-                        getattr(cls, a["n"]) if a["v"]["t"] == "same" else self.val(a["v"]))
+                        getattr(cls, a["n"]) if a["v"]["t"] == "same" else self.val(a["v"], self.kinds.get(a["n"])))
             elif n == "addparam":
                 newp = param.Integer(self.val(a["v"]), bounds=(0, 5), allow_None=True)
                 if a.get("route", "add") == "add":
@@ -117,11 +123,11 @@ class System:
                 else:
                     setattr(self.classes[a["c"]], a["n"], newp)
             elif n == "new":
-                kw = {k: self.val(v) for k, v in (a["kw"].items() if isinstance(a["kw"], dict) else [])}
+                kw = {k: self.val(v, self.kinds.get(k)) for k, v in (a["kw"].items() if isinstance(a["kw"], dict) else [])}
                 self.insts.append(self.classes[a["c"]](**kw))
             elif n == "instset":
                 i = self.insts[a["i"] - 1]
-                v = getattr(i, a["n"]) if a["v"]["t"] == "same" else float(getattr(i, a["n"])) if a["v"]["t"] == "badeq" else self.val(a["v"])
+                v = getattr(i, a["n"]) if a["v"]["t"] == "same" else float(getattr(i, a["n"])) if a["v"]["t"] == "badeq" else self.val(a["v"], self.kinds.get(a["n"]))
                 if a["route"] == "attr":
                     setattr(i, a["n"], v)
                 else:
@@ -142,9 +148,16 @@ class System:
             elif n == "classmeta":
                 self.classes[a["c"]].param[a["n"]].precedence = a["b"]
             elif n == "mutateinst":
-                getattr(self.insts[a["i"] - 1], a["n"]).append(1)
+                x = getattr(self.insts[a["i"] - 1], a["n"])
+                (x["k"] if isinstance(x, dict) else x).append(1)
             elif n == "mutateclass":
-                getattr(self.classes[a["c"]], a["n"]).append(1)
+                x = getattr(self.classes[a["c"]], a["n"])
+                (x["k"] if isinstance(x, dict) else x).append(1)
+            elif n == "sharedblocks":
+                with param.shared_parameters():
+                    with param.shared_parameters():
+                        self.classes[self.cnames[0]]()
+                    self.classes[self.cnames[-1]]()
             elif n == "enteredit":
                 cm = edit_constant(self.insts[a["i"] - 1])
                 cm.__enter__()
@@ -192,6 +205,9 @@ class System:
             return sum({1: 1, 2: 2, 3: 4}.get(o, 64) for o in set(objs)) + (128 if len(set(objs)) != len(objs) else 0)
 
         def cell(x):
+            if isinstance(x, dict) and list(x) == ["k"] and isinstance(x["k"], list):
+                # (nested representation: identity of the dictionary and of its inner list must go together)
+                return {"t": "cell", "id": ids.setdefault((id(x), id(x["k"])), len(ids) + 1), "c": len(x["k"])}
             if isinstance(x, list):
                 return {"t": "cell", "id": ids.setdefault(id(x), len(ids) + 1), "c": len(x)}
             if x is None:
